@@ -252,9 +252,9 @@ __CPROVER_assigns(__CPROVER_object_whole(self->edgeIndData), __CPROVER_object_wh
            rx(r'this->setLocalRange\(\*r\.first, \*r\.second\);', 'GV_NOP();', 1, 1), rx(r'FileGraph::iterator ii = r\.first, ei = r\.second', 'uint64_t ii = r.first, ei = r.second', 1, 1),
            rx(r'nodeData\.constructAt\(\*ii\);', 'GV_NOP();', 1, 1), rx(r'this->outOfLineConstructAt\(\*ii\);', 'GV_NOP();', 1, 1),
            rx(r'FileGraph::edge_iterator nn = ', 'uint64_t nn = ', 1, 1), rx(r'(?<=\n)(\s+)en = graph', r'\1en = graph', 0),
-           rx(r'\*graph\.edge_end\(\*ii\)', 'FG_edge_end_f(ii)', 1), rx(r'graph\.edge_end\(\*ii\)', 'FG_edge_end_f(ii)', 1), rx(r'graph\.edge_begin\(\*ii\)', 'FG_edge_begin_f(ii)', 1),
+           rx(r'\*graph\.edge_end\(\*ii\)', 'FG_edge_end_f(ii)', 0), rx(r'graph\.edge_end\(\*ii\)', 'FG_edge_end_f(ii)', 1), rx(r'graph\.edge_begin\(\*ii\)', 'FG_edge_begin_f(ii)', 1),
            rx(r'edgeData\.set\(\*nn, \{\}\);', 'self->edgeData[nn] = 0;', 1, 1), rx(r'constructEdgeValue\(graph, nn\);', 'CSR_constructEdgeValue_assumed(self, nn);', 1, 1),
-           rx(r'edgeDst\[\*nn\] = graph\.getEdgeDst\(nn\);', 'self->edgeDst[nn] = (uint32_t)FG_getEdgeDst_f(nn);', 1, 1), rx(r'edgeIndData\[\*ii\]', 'self->edgeIndData[ii]', 1, 1)],
+           rx(r'edgeDst\[\*nn\] = graph\.getEdgeDst\(nn\);', 'self->edgeDst[nn] = (uint32_t)FG_getEdgeDst_f(nn);', 1, 1), rx(r'edgeIndData\[\*?ii\]', 'self->edgeIndData[ii]', 1), rx(r'(?<![\w)\]])\*nn(?![\w])', 'nn', 0), rx(r'(?<![\w)\]])\*ii(?![\w])', 'ii', 0)],
     loops={1: """__CPROVER_assigns(ii, __CPROVER_object_whole(self->edgeIndData), __CPROVER_object_whole(self->edgeDst), __CPROVER_object_whole(self->edgeData), fg.numBytesReadIndex, fg.numBytesReadEdgeDst, fg.numBytesReadEdgeData)
 __CPROVER_loop_invariant(g_lo <= ii && ii <= g_hi && ei == g_hi && g_hi <= fg.numNodes && BEG(g_lo) <= BEG(ii) && BEG(ii) <= fg.numEdges)
 __CPROVER_loop_invariant((g_lo <= g_pn && g_pn < ii) ? DONE_IDX : self->edgeIndData[g_pn] == __CPROVER_loop_entry(self->edgeIndData[g_pn]))
@@ -284,9 +284,9 @@ __CPROVER_assigns(__CPROVER_object_whole(self->edgeIndData), __CPROVER_object_wh
            rx(r'this->setLocalRange\(\*r\.first, \*r\.second\);', 'GV_NOP();', 1, 1), rx(r'FileGraph::iterator ii = r\.first, ei = r\.second', 'uint64_t ii = r.first, ei = r.second', 1, 1),
            rx(r'nodeData\.constructAt\(\*ii\);', 'GV_NOP();', 1, 1), rx(r'this->outOfLineConstructAt\(\*ii\);', 'GV_NOP();', 1, 1),
            rx(r'FileGraph::edge_iterator nn = ', 'uint64_t nn = ', 1, 1), rx(r'(?<=\n)(\s+)en = graph', r'\1en = graph', 0),
-           rx(r'\*graph\.edge_end\(\*ii\)', 'FG_edge_end_f(ii)', 1), rx(r'graph\.edge_end\(\*ii\)', 'FG_edge_end_f(ii)', 1), rx(r'graph\.edge_begin\(\*ii\)', 'FG_edge_begin_f(ii)', 1),
+           rx(r'\*graph\.edge_end\(\*ii\)', 'FG_edge_end_f(ii)', 0), rx(r'graph\.edge_end\(\*ii\)', 'FG_edge_end_f(ii)', 1), rx(r'graph\.edge_begin\(\*ii\)', 'FG_edge_begin_f(ii)', 1),
            rx(r'constructEdgeValue\(graph, nn\);', 'GV_NOP();   /* EdgeTy = void: nothing to store */', 1, 1),
-           rx(r'edgeDst\[\*nn\] = graph\.getEdgeDst\(nn\);', 'self->edgeDst[nn] = (uint32_t)FG_getEdgeDst64_f(nn);', 1, 1), rx(r'edgeIndData\[\*ii\]', 'self->edgeIndData[ii]', 1, 1)],
+           rx(r'edgeDst\[\*nn\] = graph\.getEdgeDst\(nn\);', 'self->edgeDst[nn] = (uint32_t)FG_getEdgeDst64_f(nn);', 1, 1), rx(r'edgeIndData\[\*?ii\]', 'self->edgeIndData[ii]', 1), rx(r'(?<![\w)\]])\*nn(?![\w])', 'nn', 0), rx(r'(?<![\w)\]])\*ii(?![\w])', 'ii', 0)],
     loops={1: """__CPROVER_assigns(ii, __CPROVER_object_whole(self->edgeIndData), __CPROVER_object_whole(self->edgeDst), __CPROVER_object_whole(self->edgeData), fg.numBytesReadIndex, fg.numBytesReadEdgeDst, fg.numBytesReadEdgeData)
 __CPROVER_loop_invariant(g_lo <= ii && ii <= g_hi && ei == g_hi && g_hi <= fg.numNodes && BEG(g_lo) <= BEG(ii) && BEG(ii) <= fg.numEdges)
 __CPROVER_loop_invariant((g_lo <= g_pn && g_pn < ii) ? DONE_IDX : self->edgeIndData[g_pn] == __CPROVER_loop_entry(self->edgeIndData[g_pn]))
